@@ -81,10 +81,7 @@ func appendSignature() {
 		fileName := article.FileName
 		row := article.Row
 
-		key := frame + class + methodT.GetMethodName()
-		if isStatic {
-			key += "static"
-		}
+		key := base.SignatureKey(frame, class, methodT.GetMethodName(), isStatic)
 
 		content := base.MakeSignatureContent(methodT.GetMethodName(), frame, class, &methodT)
 		document := base.TSignatureDocument[key]
